@@ -67,7 +67,7 @@ typedef struct {
   int nhr;
   uint64_t pmask;  /* defined bits of the result, for the comparison of the copies */
   int hiblk;       /* C20 modes: the block of this case lies above 2^32 (absolute addresses that do not fit 32 bits) */
-  char seq[160];   /* @MEMSEQ: seq=<step>,<step>,...  (see build_special) */
+  char seq[400];   /* @MEMSEQ: seq=<step>,<step>,...; @ADDR: seq=<K>;<R>;<v1>,<v2>,<v3>;<steps>;<access>  (see build_special) */
   opnd_t dst, x, y;
 } case_t;
 
@@ -248,6 +248,56 @@ static void far_filler (fb_t *b) {
                           MIR_new_int_op (ctx, 0x1234567 + i * 0x10101)));
   app (b, MIR_new_insn (ctx, MIR_MOV, blk (b, MIR_T_I64, 240), MIR_new_reg_op (ctx, t)));
 }
+
+/* ---- @ADDR: address arithmetic (chains of add / sub / mul / lsh by constants) feeding one memory operand.
+   seq=<K>;<R>;<v1>,<v2>,<v3>;<step>,<step>,...;<L|S><ty>.<disp>.<base>.<index>.<scale>
+   Registers: 0 = a (the address carrier, loaded from block[32]), 1..3 = v1..v3 (block[40..64), values given), 4.. = one per
+   step in order.  Steps (s = register number, c = decimal constant):
+     M<s>.<c> mul t,s,c    m<s>.<c> mul t,c,s    K<s>.<c> mov k,c; mul t,s,k    L<s>.<c> lsh t,s,c    A<s>.<s2> add t,s,s2
+     P<s>.<c> add t,s,c    p<s>.<c> add t,c,s    Q<s>.<c> sub t,s,c             C<s>.0 mov t,s        B  new basic block
+   Access: load into the result (L) or store of y (S) through ty:disp(base, index, scale); base / index = register number
+   or '-'.  The generator (tools/gen_c02_cases.py addr_lines) evaluates the documented address base + index*scale + disp as a
+   linear form K*a + R modulo 2^64; addr_pre solves it for a so that the address is a cell inside addr_tab, copies the 16
+   cell bytes there (the rest of the table holds a position pattern) and addr_post copies the cell back to block[128..144)
+   and flags any other changed table byte in block[176..192). */
+typedef struct {
+  uint64_t K, R;
+  int64_t v[3], disp;
+  char steps[400], acc, ty[8];
+  int base, index, scale;
+} addr_case_t;
+
+static int addr_parse (case_t *c, addr_case_t *a) {
+  char buf[sizeof (c->seq)], *f[5], bs[8], is[8];
+  int n = 0;
+  long long v1, v2, v3, disp;
+  strcpy (buf, c->seq);
+  for (char *p = buf; n < 5;) {
+    f[n++] = p;
+    if ((p = strchr (p, ';')) == NULL) break;
+    *p++ = 0;
+  }
+  if (n != 5) return 0;
+  a->K = strtoull (f[0], NULL, 16);
+  a->R = strtoull (f[1], NULL, 16);
+  if (sscanf (f[2], "%lld,%lld,%lld", &v1, &v2, &v3) != 3) return 0;
+  a->v[0] = v1, a->v[1] = v2, a->v[2] = v3;
+  strcpy (a->steps, f[3]);
+  a->acc = f[4][0];
+  if (a->acc != 'L' && a->acc != 'S') return 0;
+  if (sscanf (f[4] + 1, "%7[^.].%lld.%7[^.].%7[^.].%d", a->ty, &disp, bs, is, &a->scale) != 5) return 0;
+  a->disp = disp;
+  a->base = bs[0] == '-' ? -1 : atoi (bs);
+  a->index = is[0] == '-' ? -1 : atoi (is);
+  return 1;
+}
+
+#define ADDR_TAB_SIZE (3 * 65536)
+#define ADDR_CELL_LO 65536
+#define ADDR_MAX_K 65536
+#define ADDR_PAT(i) ((unsigned char) ((i) * 131 + 89 + ((i) >> 8) * 7))
+static unsigned char addr_tab[ADDR_TAB_SIZE] __attribute__ ((aligned (16)));
+static long addr_off = -1;
 
 /* ---- special cases (opcode names starting with '@'): instructions whose documented effect is not a function of operand
    values (stack allocation, indirect jumps, switch, calls).  Expected observations: tools/gen_c02_cases.py special_expect. */
@@ -489,6 +539,68 @@ static MIR_item_t build_special (MIR_context_t ctx, case_t *c, const char *name)
       I3 (MIR_MUL, RO (r), RO (r), IO (1000003));
       I3 (MIR_ADD, RO (r), RO (r), RO (pend[i]));
     }
+  } else if (!strcasecmp (k, "ADDR")) {
+    addr_case_t a;
+    MIR_reg_t regs[80], v = new_reg (&b, MIR_T_I64, "sv");
+    int nr = 0, bad = !addr_parse (c, &a);
+    regs[nr++] = new_reg (&b, MIR_T_I64, "a");
+    I2 (MIR_MOV, RO (regs[0]), blk (&b, MIR_T_I64, 32));
+    for (int i = 0; i < 3; i++) {
+      regs[nr] = new_reg (&b, MIR_T_I64, "v");
+      I2 (MIR_MOV, RO (regs[nr]), blk (&b, MIR_T_I64, 40 + 8 * i));
+      nr++;
+    }
+    I2 (MIR_MOV, RO (v), sp_src (&b, &c->y, 1));
+    I2 (MIR_MOV, RO (r), IO (0));
+    for (char *st = bad ? NULL : strtok (a.steps, ","); st != NULL && !bad; st = strtok (NULL, ",")) {
+      int s1 = 0;
+      long long c2 = 0;
+      if (st[0] == 'B') {
+        MIR_insn_t l = MIR_new_label (ctx);
+        app (&b, MIR_new_insn (ctx, MIR_JMP, MIR_new_label_op (ctx, l)));
+        app (&b, l);
+        continue;
+      }
+      if (sscanf (st + 1, "%d.%lld", &s1, &c2) != 2 || s1 < 0 || s1 >= nr || nr >= 78) {
+        bad = 1;
+        break;
+      }
+      MIR_reg_t t = new_reg (&b, MIR_T_I64, "t");
+      switch (st[0]) {
+      case 'M': I3 (MIR_MUL, RO (t), RO (regs[s1]), IO (c2)); break;
+      case 'm': I3 (MIR_MUL, RO (t), IO (c2), RO (regs[s1])); break;
+      case 'K': {
+        MIR_reg_t kr = new_reg (&b, MIR_T_I64, "k");
+        I2 (MIR_MOV, RO (kr), IO (c2));
+        I3 (MIR_MUL, RO (t), RO (regs[s1]), RO (kr));
+        break;
+      }
+      case 'L': I3 (MIR_LSH, RO (t), RO (regs[s1]), IO (c2)); break;
+      case 'A':
+        if (c2 < 0 || c2 >= nr) {
+          bad = 1;
+          break;
+        }
+        I3 (MIR_ADD, RO (t), RO (regs[s1]), RO (regs[c2]));
+        break;
+      case 'P': I3 (MIR_ADD, RO (t), RO (regs[s1]), IO (c2)); break;
+      case 'p': I3 (MIR_ADD, RO (t), IO (c2), RO (regs[s1])); break;
+      case 'Q': I3 (MIR_SUB, RO (t), RO (regs[s1]), IO (c2)); break;
+      case 'C': I2 (MIR_MOV, RO (t), RO (regs[s1])); break;
+      default: bad = 1;
+      }
+      regs[nr++] = t;
+    }
+    if (bad || a.base >= nr || a.index >= nr || a.scale < 1 || a.scale > 255) {
+      snprintf (err_msg, sizeof (err_msg), "@ADDR: bad description");
+      longjmp (err_jmp, 1);
+    }
+    MIR_op_t m = MIR_new_mem_op (ctx, type_of_name (a.ty), a.disp, a.base < 0 ? 0 : regs[a.base], a.index < 0 ? 0 : regs[a.index],
+                                 (MIR_scale_t) a.scale);
+    if (a.acc == 'L')
+      I2 (MIR_MOV, RO (r), m);
+    else
+      I2 (MIR_MOV, m, RO (v));
   } else {
     snprintf (err_msg, sizeof (err_msg), "unknown special case %s", c->opname);
     longjmp (err_jmp, 1);
@@ -703,6 +815,41 @@ static void fill_block (case_t *c) {
       memcpy (block + 40 + 16 * i, &index, 8);
     }
   }
+}
+
+/* @ADDR: solve K*a + R = address of a cell in addr_tab (modulo 2^64) for the carrier a, see addr_case_t */
+static void addr_pre (case_t *c) {
+  addr_case_t a;
+  addr_off = -1;
+  if (!addr_parse (c, &a) || a.K == 0 || a.K > ADDR_MAX_K) {
+    snprintf (err_msg, sizeof (err_msg), "@ADDR: bad description");
+    longjmp (err_jmp, 1);
+  }
+  for (int i = 0; i < ADDR_TAB_SIZE; i++) addr_tab[i] = ADDR_PAT (i);
+  uint64_t x = (uint64_t) (intptr_t) (addr_tab + ADDR_CELL_LO) - a.R;
+  uint64_t off = (a.K - x % a.K) % a.K;
+  if (x + off < x) {
+    snprintf (err_msg, sizeof (err_msg), "@ADDR: no solution");
+    longjmp (err_jmp, 1);
+  }
+  uint64_t av = (x + off) / a.K;
+  addr_off = ADDR_CELL_LO + (long) off;
+  memcpy (addr_tab + addr_off, block + 128, 16);
+  memcpy (block + 32, &av, 8);
+  memcpy (block + 40, a.v, 24);
+}
+
+static void addr_post (void) {
+  if (addr_off < 0) return;
+  memcpy (block + 128, addr_tab + addr_off, 16);
+  for (long i = 0; i < ADDR_TAB_SIZE; i++)
+    if ((i < addr_off || i >= addr_off + 16) && addr_tab[i] != ADDR_PAT (i)) { /* a store somewhere else */
+      int64_t d = i - addr_off;
+      block[176] = 0x5A;
+      memcpy (block + 184, &d, 8);
+      break;
+    }
+  addr_off = -1;
 }
 
 /* patch disp of memory operands that have no base: the address (or its remainder) goes to disp */
@@ -935,6 +1082,7 @@ static int run_mode (void) {
       MIR_finish_module (ctx);
       MIR_load_module (ctx, m);
       fill_block (&c);
+      if (!strcasecmp (c.opname, "@ADDR")) addr_pre (&c);
       save_block ();
       int64_t ret;
       if (e == 0) {
@@ -948,6 +1096,7 @@ static int run_mode (void) {
         void *fun = MIR_gen (ctx, func);
         ret = c02_call_saving (fun, (int64_t) (intptr_t) block);
       }
+      addr_post ();
       print_obs (eng_names[e], ret);
     }
     {
